@@ -73,6 +73,9 @@ type Faults struct {
 	QuietAfterWriteErr bool `json:"quiet_after_write_err,omitempty"`
 	// WriteFailAfterLoss: once EOF / a read error was reported, writes fail (broken pipe).
 	WriteFailAfterLoss bool `json:"write_fail_after_loss,omitempty"`
+	// CloseReturnsErr: Close does its work (the connection is closed, a blocked read is released as
+	// CloseMode says) and then reports an error, as e.g. a child process that had already gone does
+	CloseReturnsErr bool `json:"close_returns_err,omitempty"`
 }
 
 // NoFaults is the fault-free plan.
@@ -110,6 +113,9 @@ var ErrSimIO = errors.New("sim: input/output error")
 
 // ErrSimWrite is the injected write error.
 var ErrSimWrite = errors.New("sim: broken pipe")
+
+// ErrSimCloseFailed is what Close returns under CloseReturnsErr.
+var ErrSimCloseFailed = errors.New("sim: close: process already finished")
 
 // ErrSimClosed is returned by reads/writes on a closed transport in CloseMode err.
 var ErrSimClosed = errors.New("sim: use of closed connection")
@@ -243,6 +249,11 @@ func (t *T) Close() error {
 	t.K.Event("tr.close", int64(t.CloseCalls))
 	if t.F.CloseMode != "stuck" {
 		t.wakeLocked()
+	}
+	if t.F.CloseReturnsErr {
+		t.FaultFired["close-returns-error"]++
+
+		return ErrSimCloseFailed
 	}
 
 	return nil
